@@ -36,7 +36,7 @@ RULE = (
     "the library call returns for the same inputs (against the saved library result and against the "
     "in-memory result), user-caused failures end non-zero with a message and leave no output file.  "
     "Non-trivial: strings one token away from valid bounds; failure cases; tables with misses."
-    ' Also: sources whose coordinates use 1e35 fill values and packed variables, GeoJSON strings longer than a file name, tables with identical rows and completely blank rows.'
+    ' Also: sources whose coordinates use 1e35 fill values and packed variables, GeoJSON strings longer than a file name, tables with identical rows and completely blank rows; clip with a zero-width box, a self-crossing ring and a box 2^-22 inside one cell (as bounds, GeoJSON string and GeoJSON file), the verdict of the library call (result or refusal) being the oracle; export-geometry with an explicit format against every extension another format owns, dotted stems (grid.v2.shp), bare and relative output names, and the exact set of files created.'
 )
 LEVEL_TEXT = ("the complete bounds-string product over a 14-numeral palette, and every (command, dataset, input variant) of "
               "the stated product run through the real argument parser and handlers, compared with direct library calls")
@@ -217,7 +217,8 @@ def write_source(spec, tmp, encoded=False):
 
 
 def fmt(value: float) -> str:
-    return repr(float(value))
+    # plain decimal digits only (the documented grammar has no exponents), exact for binary fractions
+    return np.format_float_positional(float(value), trim='0')
 
 
 def run_clip(case, rec):
@@ -246,19 +247,50 @@ def run_clip(case, rec):
             with open(path, 'w') as f:
                 json.dump(mapping(g), f)
             variants.append((f'{name}:geojson-file', path, g))
+        # geometries GEOS calls invalid, which the library nevertheless takes as they are: a box of zero width
+        # through the middle of the first cell, and a self-crossing ring over the whole grid
+        x0, y0, x1, y1 = geoms['everything'].bounds
+        first = next(p for p in polys if p is not None)
+        cx = first.centroid.x
+        variants.append(('zero-width:bounds', ','.join(fmt(v) for v in (cx, y0, cx, y1)), box(cx, y0, cx, y1)))
+        bowtie = shapely.Polygon([(x0, y0), (x1, y1), (x1, y0), (x0, y1), (x0, y0)])
+        variants.append(('bowtie:geojson', json.dumps(mapping(bowtie)), bowtie))
+        path = os.path.join(tmp, 'bowtie.geojson')
+        with open(path, 'w') as f:
+            json.dump(mapping(bowtie), f)
+        variants.append(('bowtie:geojson-file', path, bowtie))
+        # coordinates with more decimals than a metre-precision text format keeps: a box 2^-22 inside a cell's envelope
+        eps = 2.0 ** -22
+        b = first.bounds
+        inside = box(b[0] + eps, b[1] + eps, b[2] - eps, b[3] - eps)
+        variants.append(('just-inside-a-cell:geojson', json.dumps(mapping(inside)), inside))
+        variants.append(('just-inside-a-cell:bounds', ','.join(fmt(v) for v in inside.bounds), inside))
+        path = os.path.join(tmp, 'inside.geojson')
+        with open(path, 'w') as f:
+            json.dump(mapping(inside), f)
+        variants.append(('just-inside-a-cell:geojson-file', path, inside))
         for k, (label, argument, geometry) in enumerate(variants):
             rec.nontrivial(label)
             cli_out = os.path.join(tmp, f'cli-{k}.nc')
-            # '--': the POSIX way to pass an argument that starts with '-' (a negative lon_min) positionally
-            status, message = run_cli(['clip', '--', source, argument, cli_out])
-            if not rec.check(status == 0 and os.path.exists(cli_out), f"{fp}/failed", f"clip {label} exited {status}", 0, message[-300:]):
-                continue
             lib_out = os.path.join(tmp, f'lib-{k}.nc')
             work = os.path.join(tmp, f'work-{k}')
             os.mkdir(work)
             dataset = emsarray.open_dataset(source)
-            clipped = lib(dataset.ems.clip, geometry, work)
-            lib(clipped.ems.to_netcdf, lib_out)
+            try:
+                clipped = lib(dataset.ems.clip, geometry, work)
+                lib(clipped.ems.to_netcdf, lib_out)
+                library_refuses = None
+            except LibraryRaised as err:
+                library_refuses = str(err)
+            # '--': the POSIX way to pass an argument that starts with '-' (a negative lon_min) positionally
+            status, message = run_cli(['clip', '--', source, argument, cli_out])
+            if library_refuses is not None:
+                rec.check(status != 0, f"{fp}/succeeds-where-library-refuses", f"clip {label}: status {status}", library_refuses[-200:], status)
+                dataset.close()
+                continue
+            if not rec.check(status == 0 and os.path.exists(cli_out), f"{fp}/failed", f"clip {label} exited {status}", 0, message[-300:]):
+                dataset.close()
+                continue
             same, why = same_file_content(cli_out, lib_out)
             rec.check(same, f"{fp}/differs-from-library", f"clip {label}: output differs from the library result", 'identical', why)
             dataset.close()
@@ -289,20 +321,60 @@ def run_export(case, rec):
             with open(lib_path, 'rb') as f:
                 want = f.read()
             runs = [(['-f', fmt_name], f'explicit{extensions[fmt_name][0]}')]
-            if fmt_name != 'shapefile':     # a shapefile is a family of files named after the .shp base name
-                runs.append((['-f', fmt_name], 'explicit.dat'))
+            # an explicit format wins over whatever the file name suggests: every extension another format owns
+            for other, exts in extensions.items():
+                if other != fmt_name:
+                    runs += [(['-f', fmt_name], f'explicit-not-{other}{ext}') for ext in exts]
+            runs.append((['-f', fmt_name], 'explicit.dat'))
             runs += [([], f'guessed{ext}') for ext in extensions[fmt_name]]
+            # names with a dot in the stem
+            runs += [([], f'grid.v2{ext}') for ext in extensions[fmt_name]]
+            runs.append((['-f', fmt_name], 'model.2024.blob'))
+            # a bare file name / a relative path, resolved against the current directory
+            runs.append((['-f', fmt_name], f'./bare{extensions[fmt_name][0]}'))
+            runs.append(([], f'./sub/relative{extensions[fmt_name][0]}'))
+            os.makedirs(os.path.join(tmp, 'sub'), exist_ok=True)
             for flags, filename in runs:
                 n += 1
                 rec.nontrivial((fmt_name, filename))
-                out = os.path.join(tmp, f'{n}-{filename}')
-                status, message = run_cli(['export-geometry', source, out] + flags)
-                if not rec.check(status == 0 and os.path.exists(out), f"{fp}/failed", f"export-geometry {flags} {filename}: status {status}", 0, message[-300:]):
+                if filename.startswith('./'):
+                    relative = filename[2:]
+                    relative = os.path.join(os.path.dirname(relative), f'{n}-{os.path.basename(relative)}')
+                    out, argument, cwd = os.path.join(tmp, relative), relative, tmp
+                else:
+                    out = argument = os.path.join(tmp, f'{n}-{filename}')
+                    cwd = None
+                before = set(os.listdir(tmp)) | {os.path.join('sub', x) for x in os.listdir(os.path.join(tmp, 'sub'))}
+                here = os.getcwd()
+                try:
+                    if cwd:
+                        os.chdir(cwd)
+                    status, message = run_cli(['export-geometry', source, argument] + flags)
+                finally:
+                    os.chdir(here)
+                after = set(os.listdir(tmp)) | {os.path.join('sub', x) for x in os.listdir(os.path.join(tmp, 'sub'))}
+                if fmt_name == 'shapefile':
+                    # a shapefile is a family of files named after the base name (last extension replaced)
+                    base = os.path.splitext(out)[0]
+                    lib_base = os.path.splitext(lib_path)[0]
+                    produced = {base + e: lib_base + e for e in ('.shp', '.shx', '.dbf', '.prj')}
+                else:
+                    produced = {out: lib_path}
+                expected_new = {os.path.relpath(p, tmp) for p in produced}
+                if not rec.check(status == 0 and all(os.path.exists(p) for p in produced), f"{fp}/failed",
+                                 f"export-geometry {flags} {filename}: status {status}", sorted(expected_new), [message[-300:], sorted(after - before)]):
                     continue
-                with open(out, 'rb') as f:
-                    got = f.read()
-                rec.check(got == want, f"{fp}/differs-from-library", f"export-geometry {flags} {filename}: file differs from write_{fmt_name}",
-                          len(want), len(got))
+                rec.check(after - before == expected_new, f"{fp}/other-files-written", f"export-geometry {flags} {filename}: files created",
+                          sorted(expected_new), sorted(after - before))
+                for got_path, want_path in produced.items():
+                    with open(got_path, 'rb') as f:
+                        got = f.read()
+                    with open(want_path, 'rb') as f:
+                        want = f.read()
+                    if got_path.endswith('.dbf'):
+                        got, want = got[4:], want[4:]      # bytes 1..3 of a dBase header are the date of writing
+                    rec.check(got == want, f"{fp}/differs-from-library",
+                              f"export-geometry {flags} {filename}: {os.path.basename(got_path)} differs from write_{fmt_name}", len(want), len(got))
         for filename in ('unknown.xyz', 'noextension'):
             out = os.path.join(tmp, filename)
             status, message = run_cli(['export-geometry', source, out])
